@@ -161,6 +161,17 @@ Plan cppwrap_generate(uint64_t base, const std::string &prop, uint64_t index, in
     k.p_container = 20 + (int)rd.below(40);
     p.root = 0;
     Node t = gen_tree(rd, k, false);
+    if (rd.chance(1, 25)) {
+        // arrays do not count against the wrapper's object-depth limit of 10: up to 255 of them may nest per object level
+        static const int N[] = {12, 40, 79, 80, 81, 120, 200, 254, 255};
+        int depth = N[rd.below(9)];
+        Node holder; holder.t = V_ARR; holder.name = Bytes{'n', 'e', 's', 't'};
+        Node *cur = &holder;
+        for (int i = 1; i < depth; i++) { Node c; c.t = V_ARR; cur->kids.push_back(c); cur = &cur->kids.back(); }
+        Node leaf; leaf.t = V_INT; leaf.i = depth; cur->kids.push_back(leaf);
+        bool dup = false; for (auto &kid : t.kids) if (kid.name == holder.name) dup = true;
+        if (!dup) { t.kids.push_back(holder); std::sort(t.kids.begin(), t.kids.end(), [](const Node &a, const Node &b) { return a.name < b.name; }); p.faults.push_back(fmt("shape:arrays=%d", depth)); }
+    }
     encode(t, p.doc);
     p.note = tree_text(t);
     p.max_depth = 10;
